@@ -68,6 +68,7 @@ package gostring
 import (
 	"fmt"
 	"go/types"
+	"strings"
 
 	"github.com/awalterschulze/goderive/derive"
 )
@@ -110,7 +111,9 @@ func (g *gen) Generate(typs []types.Type) error {
 }
 
 func (g *gen) TypeString(typ types.Type) string {
-	return g.TypesMap.(bypass).TypeStringBypass(typ)
+	s := g.TypesMap.(bypass).TypeStringBypass(typ)
+	// the type is printed inside a string literal that is a format string, and struct tags hold quotes.
+	return strings.NewReplacer(`\`, `\\`, `"`, `\"`, "%", "%%").Replace(s)
 }
 
 type bypass interface {
